@@ -258,3 +258,45 @@ Definition ref_sg_refill_firstgroup : Z :=
 Definition ref_sg_refill_multgroup : Z :=
   0.
 
+
+(* ------------------------------------------------------------------ round 5: the route to the separation routine *)
+(* the route from spheregroup() to the separation routine, as normalised source text *)
+Definition ref_route_sphereradec_args : list string :=
+  ("x1" :: "x2" :: nil).
+
+Definition ref_route_sphereradec : list string :=
+  ("return gcirc(x1[0], x1[1], x2[0], x2[1], units=0)" :: nil).
+
+Definition ref_route_chunkfof_args : list string :=
+  ("self" :: "ra" :: "dec" :: "chunkList" :: "linkSep" :: nil).
+
+Definition ref_route_chunkfof : list string :=
+  ("x = np.deg2rad(np.vstack((ra[chunkList], dec[chunkList])))" ::
+   "radLinkSep = np.deg2rad(linkSep)" ::
+   "group = groups(x, radLinkSep, 'sphereradec')" ::
+   "return group" ::
+   nil).
+
+Definition ref_route_spheregroup_args : list string :=
+  ("ra" :: "dec" :: "linklength" :: "chunksize" :: nil).
+
+Definition ref_route_spheregroup_defaults : list string :=
+  ("None" :: nil).
+
+Definition ref_route_spheregroup_head : list string :=
+  ("npoints = ra.size" ::
+   "if npoints == 1:
+    raise PydlutilsException('Cannot group only one point!')" ::
+   "if chunksize is not None:
+    if chunksize < 4.0 * linklength:
+        chunksize = 4.0 * linklength
+        warn('chunksize changed to {0:.2f}.'.format(chunksize), PydlutilsUserWarning)
+else:
+    chunksize = max(4.0 * linklength, 0.1)" ::
+   "chunk = chunks(ra, dec, chunksize)" ::
+   "chunk.assign(ra, dec, linklength)" ::
+   "ingroup, multgroup, firstgroup, nextgroup, ngroups = chunk.friendsoffriends(ra, dec, linklength)" ::
+   "renumbered = np.zeros(npoints, dtype='bool')" ::
+   "iclump = 0" ::
+   nil).
+
